@@ -78,10 +78,13 @@ type StreamRec struct {
 	StubDone    bool   `json:"stub_done,omitempty"` // the service method returned
 	// WireC2S / WireS2C are the websocket frames seen on the server's side of the socket, in order: the
 	// payload of text frames verbatim, other frames as "<close 1000 reason>", "<binary n bytes>", ...
-	WireC2S  []string `json:"wire_c2s,omitempty"`
-	WireS2C  []string `json:"wire_s2c,omitempty"`
-	Watchdog string   `json:"watchdog,omitempty"` // non-empty: the watchdog fired (what was pending)
-	Steps    []string `json:"steps,omitempty"`    // interleaving of the four streams' events
+	WireC2S []string `json:"wire_c2s,omitempty"`
+	WireS2C []string `json:"wire_s2c,omitempty"`
+	// ConnLeftOpen: the generated handler returned (the service method failed after the upgrade) without closing
+	// the hijacked connection; the loopback server then closes it, as the peer would be left hanging otherwise.
+	ConnLeftOpen bool     `json:"conn_left_open,omitempty"`
+	Watchdog     string   `json:"watchdog,omitempty"` // non-empty: the watchdog fired (what was pending)
+	Steps        []string `json:"steps,omitempty"`    // interleaving of the four streams' events
 }
 
 // wsState is the live state of a streaming exchange.
@@ -95,7 +98,7 @@ type wsState struct {
 
 const (
 	corrHeader    = "X-Lab-Exchange"
-	streamWatch   = 40 * time.Second
+	streamWatch   = 25 * time.Second
 	maxStreamMsgs = 1000
 )
 
@@ -147,6 +150,14 @@ type tapConn struct {
 	net.Conn
 	mu       sync.Mutex
 	in, outb []byte
+	closed   bool
+}
+
+func (t *tapConn) Close() error {
+	t.mu.Lock()
+	t.closed = true
+	t.mu.Unlock()
+	return t.Conn.Close()
 }
 
 func (t *tapConn) Read(p []byte) (int, error) {
@@ -307,6 +318,7 @@ func asErr(v reflect.Value) error {
 // ---------------------------------------------------------------- server side
 
 var wsExchanges sync.Map // correlation id -> *Exchange
+var wsFired sync.Map     // "svc.method" -> number of watchdog firings
 var wsSeq atomic.Int64
 
 // streamServer returns the loopback server of a service, starting it on first use.
@@ -334,6 +346,19 @@ func (dr *Driver) streamServer(st *svcState) *httptest.Server {
 				}
 			}()
 			st.handler.ServeHTTP(&hijackTap{ResponseWriter: w, ex: ex}, r.WithContext(context.WithValue(r.Context(), exKey, ex)))
+			// a hijacked connection the generated code did not close is nobody's any more: close it, and say so
+			ex.mu.Lock()
+			t := ws.tap
+			ex.mu.Unlock()
+			if t != nil {
+				t.mu.Lock()
+				open := !t.closed
+				t.mu.Unlock()
+				if open {
+					ex.sUpd("conn_left_open", func(r *StreamRec) { r.ConnLeftOpen = true })
+					t.Close()
+				}
+			}
 		}))
 	})
 	return st.ts
@@ -559,6 +584,19 @@ func (dr *Driver) dialWS(st *svcState, ex *Exchange, ctx context.Context, rawurl
 
 // runStream drives the client end of a streaming case under the watchdog.
 func (dr *Driver) runStream(st *svcState, ex *Exchange, ctx context.Context) {
+	// a method whose exchanges keep hanging is not given the full watchdog over and over
+	wkey := ex.Case.Svc + "." + ex.Case.Method
+	if n, _ := wsFired.Load(wkey); n != nil && n.(int) >= 2 {
+		ex.Stream = &StreamRec{Watchdog: "skipped: the watchdog fired twice for this method already"}
+		return
+	}
+	defer func() {
+		if ex.Stream != nil && ex.Stream.Watchdog != "" {
+			n, _ := wsFired.Load(wkey)
+			k, _ := n.(int)
+			wsFired.Store(wkey, k+1)
+		}
+	}()
 	ex.ws = &wsState{id: strconv.FormatInt(wsSeq.Add(1), 10), handlerDone: make(chan struct{})}
 	ex.Stream = &StreamRec{}
 	wsExchanges.Store(ex.ws.id, ex)
